@@ -28,8 +28,38 @@ _state = {"serial": 0, "order": "asc", "installed": False, "scratch": None}
 
 
 # ------------------------------------------------------------------ import + seam
+def _install_line_audit(path):
+    """VERIF_COV=<dir>: record every line of the library that any check executes (sys.monitoring, each location
+    reported once and then disabled) - an audit tool (tools/covaudit.py), not part of any verdict."""
+    import sys
+    mon = sys.monitoring
+    tool = mon.COVERAGE_ID
+    try:
+        mon.use_tool_id(tool, "verif-audit")
+    except ValueError:
+        return
+    prefix = os.path.join(REPO, "spydrnet")
+    out = open(os.path.join(path, "lines.%d" % os.getpid()), "a", buffering=1)
+    state = {"pid": os.getpid(), "out": out}
+
+    def on_line(code, lineno):
+        fn = code.co_filename
+        if fn.startswith(prefix):
+            if state["pid"] != os.getpid():   # forked worker: own file
+                state["pid"] = os.getpid()
+                state["out"] = open(os.path.join(path, "lines.%d" % os.getpid()), "a", buffering=1)
+            state["out"].write("%s:%d\n" % (fn[len(REPO) + 1:], lineno))
+        return mon.DISABLE
+
+    mon.register_callback(tool, mon.events.LINE, on_line)
+    mon.set_events(tool, mon.events.LINE)
+
+
 def sdn():
     """Import spydrnet (once) with plugin discovery closed and the seam installed."""
+    if os.environ.get("VERIF_COV") and not _state.get("audit"):
+        _state["audit"] = True
+        _install_line_audit(os.environ["VERIF_COV"])
     import spydrnet
 
     if not _state["installed"]:
